@@ -28,8 +28,14 @@ META = {
                   "any uncaught exception is a violation keyed by (exception class, raising function) with a shrunk input.",
     "level_note": "partial. Trusted: Coq kernel + vm_compute; harness/props/c16.py, harness/pipe_worker.py, harness/gen_fuzz.py; "
                   "CPython 3.12 running /repo. Modelled, not verified: the Python sources; exceptions inside passes are outside "
-                  "the model by construction (each observed class is reported, none is assumed absent). The per-line tokenizer "
-                  "and the LR driver are arguments of the model (they are modelled in Lex/ and LR/).",
+                  "the model by construction (each observed class is reported, keyed by defect mechanism where one is recognised and "
+                  "by (exception class, raising function) otherwise; none is assumed absent). The per-line tokenizer and the LR driver "
+                  "are arguments of the model (they are modelled in Lex/ and LR/). corpus/C16 holds one shrunk input per class seen so "
+                  "far and is replayed first, so the listed classes are re-derived on every run for every seed; the quick tier adds "
+                  "2000 fresh inputs per run, the thorough tier 30000 (the tail of rare crash classes is long: about one new class per "
+                  "20000 inputs in development). Generated field widths above 65536 are cut down: the front end computes 2**width for "
+                  "them (minutes and gigabytes from about 2**30 on; recorded once as finding "
+                  "crash:ValueError:integer-width-beyond-digit-limit and not re-run).",
     "category": "proof",
 }
 
@@ -296,12 +302,39 @@ def _run_scripted_process_ir(pass_names, outs, stop):
 # ----------------------------------------------------------------------------
 # judging one compilation record
 # ----------------------------------------------------------------------------
+def classify_crash(c):
+    """Key of an uncaught exception: the defect mechanism where one is recognised, otherwise
+    (exception class, raising function of /repo)."""
+    exc, func, fil, msg = c["exc"], c["func"], c.get("file") or "", c.get("msg") or ""
+    base = func.split(".")[-1]
+    if exc == "AttributeError" and "'NoneType' object has no attribute" in msg and (
+            fil.endswith(("attribute_util.py", "attribute_checker.py"))
+            or base in ("get_boolean_attribute", "get_integer_attribute", "get_attribute")):
+        # attribute values are read (.text / .type / .has_field) before attribute_util has checked their kind
+        return "crash:AttributeError:attribute-value-of-wrong-kind"
+    if exc == "AssertionError" and func == "_FunctionCaller.invoke" and "missing" in msg and "current_scope" in msg:
+        # a module-level attribute whose value contains a name or builtin: resolved without a scope
+        return "crash:AssertionError:module-attribute-value-with-reference"
+    if exc == "AssertionError" and base == "_type_check_builtin_reference" and "Unknown builtin" in msg:
+        return "crash:AssertionError:next-keyword-in-attribute-value"
+    if exc == "KeyError" and base == "strong_connect" and re.match(r"^\((['\"]).*\1,\)$", msg.strip()):
+        # a module node (1-tuple) that is not in the dependency graph: an import alias used as a value
+        return "crash:KeyError:import-alias-used-as-value"
+    if exc == "TypeError" and base == "format" and "unhashable type" in msg:
+        return "crash:TypeError:message-source-file-not-a-string"
+    if exc == "UnicodeDecodeError":
+        return "crash:UnicodeDecodeError:source-file-not-utf8"
+    if exc == "ValueError" and "Exceeds the limit" in msg and "integer string conversion" in msg:
+        return "crash:ValueError:integer-width-beyond-digit-limit"
+    return pw.crash_key(c)
+
+
 def judge(rec, files, main=MAIN):
     """[(key, description)] of property violations visible in one record."""
     out = []
     if rec["status"] == "crash":
         c = rec["crash"]
-        out.append((pw.crash_key(c), "uncaught %s in %s (%s:%s, stage %s): %s"
+        out.append((classify_crash(c), "uncaught %s in %s (%s:%s, stage %s): %s"
                     % (c["exc"], c["func"], c["file"], c["line"], rec["stage"], c["msg"])))
         return out
     if rec["status"] != "rejected":
@@ -453,6 +486,13 @@ def cli_crash_key(stderr):
     return "crash:%s:%s" % (exc, qual)
 
 
+def cli_key(err):
+    key = cli_crash_key(err)
+    parts = key.split(":", 2)
+    return classify_crash({"exc": parts[1], "func": parts[2] if len(parts) > 2 else "?", "file": "",
+                           "msg": err.strip().splitlines()[-1] if err.strip() else ""})
+
+
 def run_cli(ctx, d, data, name="m.emb", extra_args=()):
     """Write `data` (bytes) as d/name and run the working tree's embossc on it."""
     os.makedirs(d, exist_ok=True)
@@ -485,6 +525,27 @@ def load_corpus():
         j = json.load(open(p, encoding="utf-8"))
         out.append(("corpus:" + os.path.basename(p), j["text"], j.get("key")))
     return out
+
+
+def build_inputs(ctx, n_fuzz):
+    """The corpus of minimised past failures first, then n_fuzz distinct generated inputs."""
+    inputs = [(lab, txt) for lab, txt, _ in load_corpus()]
+    n_corpus = len(inputs)
+    seen = set()
+    while len(inputs) < n_fuzz + n_corpus:
+        lab, txt = gen_fuzz.generate(ctx.rng, fw.REPO)
+        h = hashlib.sha1(txt.encode("utf-8", "surrogatepass")).digest()
+        if h in seen:
+            ctx.count("duplicate-input")
+            if len(seen) > 3 * n_fuzz:
+                break
+            continue
+        seen.add(h)
+        inputs.append((lab, txt))
+    return inputs
+
+
+N_MODEL_QUICK, N_FUZZ_QUICK = 120, 2000
 
 
 def run(ctx):
@@ -531,31 +592,19 @@ def run(ctx):
             ctx.case(("replay-cli", r["file_bytes_hex"]), nontrivial=True)
             ctx.obligation("replay: %s no longer fails" % rp.get("key"), not bad)
             if bad:
-                ctx.violation(cli_crash_key(err) if "Traceback" in err else "cli-exit-status", err.strip().splitlines()[-1][:200],
+                ctx.violation(cli_key(err) if "Traceback" in err else "cli-exit-status", err.strip().splitlines()[-1][:200],
                               dict(kind="cli", file_bytes_hex=r["file_bytes_hex"], stderr=err[-1500:]), found_input=True)
             return
         ctx.note("replay file of kind %r: running the whole check" % r.get("kind"))
 
     # ---- (i) the mirrored functions ---------------------------------------------
-    n_model = 600 if ctx.thorough() else 120
+    n_model = 600 if ctx.thorough() else N_MODEL_QUICK
     mc = model_cases(ctx, n_model)
     phase("model-cases")
 
     # ---- (ii) generated inputs through the real pipeline ------------------------
-    n_fuzz = 60000 if ctx.thorough() else 3000
-    inputs = [(lab, txt) for lab, txt, _ in load_corpus()]
-    n_corpus = len(inputs)
-    seen = set()
-    while len(inputs) < n_fuzz + n_corpus:
-        lab, txt = gen_fuzz.generate(ctx.rng, fw.REPO)
-        h = hashlib.sha1(txt.encode("utf-8", "surrogatepass")).digest()
-        if h in seen:
-            ctx.count("duplicate-input")
-            if len(seen) > 3 * n_fuzz:
-                break
-            continue
-        seen.add(h)
-        inputs.append((lab, txt))
+    n_fuzz = 30000 if ctx.thorough() else N_FUZZ_QUICK
+    inputs = build_inputs(ctx, n_fuzz)
     phase("generate")
     nproc = min(fw.NPROC, 16)
     chunks = [inputs[i::nproc * 4] for i in range(nproc * 4)]
@@ -594,13 +643,12 @@ def run(ctx):
                     fmt_cases.append(("CFormat %s %s" % (csources(src), cmsg(m["file"], m["loc"], m["severity"], m["text"])),
                                       "RParts %s" % cparts(parts), {"kind": "format-replay", "text": text, "message": m, "crash": None}))
                     ctx.count("model:format-replay")
-    ctx.obligation("pipeline: %d generated inputs, every outcome is output or well-formed located errors" % len(results),
-                   not found)
+    n_viol0 = len(ctx.violations)
     # shrink one representative per class (in parallel); classes already listed as known keep their shortest input
     listed = {k["key"] for k in ctx.known if k.get("status") == "known"}
     budget = 600 if ctx.thorough() else 150
     small = {key: found[key][0] for key in found}
-    todo = [key for key in sorted(found) if key not in listed]
+    todo = [key for key in sorted(found) if key not in listed and not found[key][2].startswith("corpus:")]
     with concurrent.futures.ProcessPoolExecutor(max_workers=nproc, mp_context=mpctx) as ex:
         futs = {key: ex.submit(shrink, found[key][0], extra, key, budget) for key in todo}
         for key, f in futs.items():
@@ -612,6 +660,9 @@ def run(ctx):
                            main=MAIN, text=small[key], original_text=text if text != small[key] else None, occurrences=cnt),
                       found_input=True)
 
+    ctx.obligation("pipeline: %d generated inputs, every outcome is output or well-formed located errors "
+                   "(apart from %d classes listed as known findings)" % (len(results), len(ctx.known_hits)),
+                   len(ctx.violations) == n_viol0)
     phase("shrink")
     # ---- model cases through Coq ------------------------------------------------
     allc = mc + fmt_cases
@@ -619,7 +670,7 @@ def run(ctx):
     # a Python exception where the model is total is a finding by itself
     for inp, exp, info in allc:
         if info.get("crash") and info["kind"] != "parse_error":
-            ctx.violation(pw.crash_key(info["crash"]), "uncaught %s in %s on a constructed %s call" % (
+            ctx.violation(classify_crash(info["crash"]), "uncaught %s in %s on a constructed %s call" % (
                 info["crash"]["exc"], info["crash"]["func"], info["kind"]),
                 dict(kind="call", function=info["kind"], arguments={k: str(v)[:1500] for k, v in info.items() if k != "crash"},
                      exception=info["crash"]), found_input=True)
@@ -695,7 +746,7 @@ def run(ctx):
             if res["rc"] is None:
                 key, desc = "cli-timeout", "embossc did not finish in 300 s"
             elif "Traceback (most recent call last)" in err:
-                key = cli_crash_key(err)
+                key = cli_key(err)
                 desc = "embossc printed a traceback: " + err.strip().splitlines()[-1][:200]
             elif res["rc"] not in (0, 1):
                 key, desc = "cli-exit-status", "embossc exit status %r" % res["rc"]
@@ -716,18 +767,19 @@ def run(ctx):
                 ).hexdigest() != rec["header_canon_sha"]:
                     key, desc = "cli-differs-from-library", "embossc's header differs from generate_header of the in-process run"
             elif rec is not None and rec["status"] == "crash":
-                key, desc = "cli-no-crash", "the in-process run crashed (%s) but embossc did not" % pw.crash_key(rec["crash"])
+                key, desc = "cli-no-crash", "the in-process run crashed (%s) but embossc did not" % classify_crash(rec["crash"])
             elif rec is None and res["rc"] == 0 and res["header"] is None:
                 key, desc = "cli-no-output", "exit status 0 without a header"
             ctx.case(("cli", data), nontrivial=True)
             if key and key not in cli_found:
                 cli_found[key] = (desc, data, err, text)
-    ctx.obligation("embossc CLI: %d runs, no traceback, exit status 0/1, diagnostics/header equal to the library's" % len(jobs),
-                   not [k for k in cli_found if k not in found])
+    n_viol1 = len(ctx.violations)
     for key, (desc, data, err, text) in sorted(cli_found.items()):
         if key in found:
             continue        # same crash class already reported with a shrunk input
         ctx.violation(key, desc, dict(kind="cli", entry="embossc", file_bytes_hex=data.hex() if len(data) < 4000 else None,
                                       text=text, stderr=err[-1500:]), found_input=True)
+    ctx.obligation("embossc CLI: %d runs, no traceback, exit status 0/1, diagnostics/header equal to the library's "
+                   "(apart from classes listed as known findings)" % len(jobs), len(ctx.violations) == n_viol1)
     phase("cli")
     ctx.extra["distinct_violation_keys"] = sorted(set(found) | set(cli_found))
